@@ -77,7 +77,14 @@ class Module:
         self.path = path
         self.text = text
         self.lines = text.split("\n")
-        self.tree = canonicalise(ast.parse(text, filename=str(path)))
+        tree = ast.parse(text, filename=str(path))
+        self.respelled = 0
+        if not os.environ.get("OSACA_SA_NO_IMPORTS"):
+            from .imports import respell
+            self.respelled = respell(rel, tree)
+            if self.respelled:
+                ast.fix_missing_locations(tree)
+        self.tree = canonicalise(tree)
         self.stem = Path(rel).stem
         self.link_parents()
         self.globals = {}  # module-level simple assignments: name -> value node
